@@ -106,8 +106,9 @@ def run(chk):
         nz = forms.Normalizer(it, o)
         ncls.add(re.sub(r"&_\d+", "&_", C.show_arg(nz, e[3][1]))[:80])
     cl_sizes = set()
-    for k, bs in w.bodies.items():
-        if k.startswith(fn + "::{closure") and "#promoted" not in k:
+    for k in C.closure_keys(w, fn):
+        bs = w.bodies[k]
+        if True:
             cb = bs[0]
             for bb, t in cfgmod.calls(cb):
                 if (cfgmod.callee(t) or "").endswith("from_elem"):
